@@ -24,6 +24,8 @@ EXPLANATION = (
     "loop to the failure return. (3) Constant agreement for the file:// prefix. "
     "These are necessary conditions; byte-for-byte equality of the file depends "
     "on OS semantics and unbounded arithmetic and is not decided.")
+EXPLANATION += (' R-SET-ADOPTS: a successful set stored the requested name. file_write on the linear domain: ADVANCE (buffer position and file offset advance by the bytes written), COMPLETE (success only when cur reached end), VARIANT (every retry makes progress or uses the budget). STALE-CURSOR also covers plain computed stores during append (reads inside stop are not judged: zero-frame acquisitions).')
+
 
 
 def same_expr(a, b):
